@@ -402,6 +402,47 @@ fn exhaustive(rep: &mut Report, rng: &mut Rng, pool: &[Enr]) {
 
 /// A node configured with its own protocol id / version (the real receive path: socket task,
 /// `Packet::decode`, handler) accepts datagrams of that identity only and emits that identity.
+/// The receive path of the socket layer: datagrams of every permitted size, the largest ones above
+/// all, reach `Packet::decode` unharmed (wire rig: the real RecvHandler fed from the virtual socket).
+/// Only sizes up to 1280 are judged here: a UDP read into the 1280-byte buffer cuts a longer
+/// datagram, and what is left may well be a valid packet.
+pub fn scenario_recv_sizes(seed: u64, rep: &mut Report) {
+    use crate::rig::r1::{runtime, v4, RigConfig, WireRig};
+    use discv5::verif::HandlerOut;
+    let rt = runtime(seed);
+    rt.block_on(async {
+        let mut rng = Rng::new(seed ^ 0x512E);
+        let rig = WireRig::start(&mut rng, RigConfig::default()).await;
+        let vid = rig.victim_id();
+        rep.evaluations += 1;
+        rep.count("recv_size_scenarios");
+        let mut lens: Vec<usize> = vec![1280, 1279, 72 + rng.usize(1200)];
+        lens.push(*rng.pick(&[1278usize, 1277, 1024, 1025, 512, 72, 73, 100]));
+        for (k, len) in lens.iter().enumerate() {
+            let src: [u8; 32] = rng.array();
+            let from = v4(10, 3, 5, 1 + k as u8, 9300 + k as u16);
+            let body = rng.bytes(len - 71);
+            let p = RawPacket::new(rng.array(), codec_ref::FLAG_MESSAGE, rng.array(), codec_ref::authdata_message(&src), body);
+            let datagram = p.encode(&vid);
+            assert_eq!(datagram.len(), *len);
+            if codec_ref::decode(&vid, &datagram).is_err() {
+                continue;
+            }
+            rig.inject(from, datagram.clone());
+            rig.settle().await;
+            let evs = rig.take_events();
+            let _ = rig.take_sent();
+            rep.count("recv_size_datagrams");
+            rep.fingerprint(&("recv-size", len / 8));
+            // a readable message packet of an unknown sender makes the handler ask who that is
+            let asked = evs.iter().any(|e| matches!(&e.v, HandlerOut::WhoAreYou(w) if w.0.node_id.raw() == src));
+            if !asked {
+                rep.violation("C05:receive-path-drops-valid-datagram", format!("a valid message datagram of {len} bytes was not decoded on the receive path"), json!({"scenario_seed": seed.to_string(), "kind": "recv-sizes", "len": len, "datagram": hx(&datagram)}));
+            }
+        }
+    });
+}
+
 pub fn scenario_identity(seed: u64, rep: &mut Report) {
     use crate::peer::peersim::signing_key;
     use crate::rig::r1::{runtime, v4, RigConfig, WireRig};
@@ -489,6 +530,11 @@ pub fn run(p: &Params) -> Report {
             scenario_identity(seed, &mut rep);
             return rep;
         }
+        if r["replay"]["kind"] == "recv-sizes" {
+            let seed: u64 = r["replay"]["scenario_seed"].as_str().unwrap().parse().unwrap();
+            scenario_recv_sizes(seed, &mut rep);
+            return rep;
+        }
         differential(&mut rep, &local, &data, "replay", false);
         return rep;
     }
@@ -497,6 +543,8 @@ pub fn run(p: &Params) -> Report {
     for i in 0..idn {
         let seed = p.shard_seed(0x1D_0000 + i);
         crate::util::guarded(&mut rep, seed, |rep| scenario_identity(seed, rep));
+        let seed = p.shard_seed(0x512_0000 + i);
+        crate::util::guarded(&mut rep, seed, |rep| scenario_recv_sizes(seed, rep));
     }
     if p.shard == 0 {
         exhaustive(&mut rep, &mut rng, &pool);
